@@ -1,6 +1,3 @@
-import CueVerif.Proofs.ModCacheStep1
-import CueVerif.Proofs.ModCacheStep2
-import CueVerif.Proofs.ModCacheStep3
 import CueVerif.Proofs.ModCacheStep4
 /-!
 C16: `Inv` holds in every reachable state (any number of processes and goroutines, any
@@ -102,7 +99,7 @@ theorem inv_crash {n s} (h : Inv n s) (p : Pid) : Inv n (crash s p) := by
     by_cases e : u.1 = p
     · simp [e, Local]
     · simp only [e, if_false]
-      rw [local_congr (s := s) _ rfl rfl rfl rfl]; exact h.loc u
+      rw [local_congr (s := s) (s' := crash s p) _ rfl rfl rfl rfl]; exact h.loc u
   · intro u hu
     rw [hpc]
     by_cases e : u.1 = p
@@ -113,8 +110,8 @@ theorem inv_crash {n s} (h : Inv n s) (p : Pid) : Inv n (crash s p) := by
 
 theorem inv_step {n s s'} (h : Inv n s) (hs : Step n s s') : Inv n s' := by
   cases hs with
-  | act _ _ t c o hn => exact inv_next h hn
-  | crash _ p => exact inv_crash h p
+  | act _ t c o hn => exact inv_next h hn
+  | crash p => exact inv_crash h p
 
 theorem reachable_inv {n s} (hr : Reachable n s) : Inv n s := by
   induction hr with
@@ -128,7 +125,10 @@ theorem safe_of_inv {n s} (h : Inv n s) : Safe n s := by
   rintro ⟨hd, hm⟩
   cases hs : s.dir with
   | none => simp [hs] at hd
-  | some d => rw [h.avail_ok hm d hs]; rfl
+  | some d =>
+    have := h.avail_ok hm d hs
+    subst this
+    exact hs
 
 /-- mutual exclusion: two threads inside locked regions are the same thread -/
 theorem mutex {n s} (h : Inv n s) (u v : Tid) (hu : (s.pc u).crit = true)
